@@ -747,7 +747,13 @@ func (e *env) settle(r *h.Run) (final bool, lost bool) {
 		}
 		return true
 	}
+	// The predicate sampled in the stuck-state loop must be cheap (the loop
+	// itself must not make the process look busy, least of all under the race
+	// detector): counters first, the full scan only when they say "complete".
 	allRan := func() bool {
+		if e.endedTotal.Load() < e.accepted.Load() {
+			return false
+		}
 		for i := range e.jobs {
 			rec := &e.jobs[i]
 			if rec.accepted.Load() && rec.nEnd.Load() == 0 {
